@@ -115,6 +115,21 @@ fn main() {
         };
         let stage = v.get("stage").and_then(|s| s.as_str()).unwrap_or("");
         let case = v.get("case").cloned().unwrap_or(Value::Null);
+        // a replay that does not return is a violation as well (CPU time of this process)
+        {
+            let (id, path) = (id.clone(), path.clone());
+            std::thread::spawn(move || loop {
+                std::thread::sleep(std::time::Duration::from_millis(500));
+                let used = vlib::run::process_cpu_ms();
+                if used > vlib::run::cpu_limit_ms() {
+                    println!("REPLAY property={id} flavour={FLAVOUR} result=violated what=no return after {} s of CPU time", used / 1000);
+                    println!("VIOLATION property={id} replay={path}");
+                    use std::io::Write;
+                    std::io::stdout().flush().ok();
+                    std::process::exit(1);
+                }
+            });
+        }
         match (check.replay)(&ctx, stage, &case) {
             Ok(()) => {
                 println!("REPLAY property={id} flavour={FLAVOUR} result=held file={path}");
